@@ -48,6 +48,7 @@ class Engine:
         self.used_externals = set()
         self.used_axioms = set()
         self.quick_timeout_ms = quick_timeout_ms
+        self.quick_rlimit = 150000
         self._fops = {}
         self._sentinels = {}
         self._sent_ctr = 0
@@ -152,8 +153,8 @@ class Engine:
                 return self.wrap_spec_lookup(r)
             if name in self.contracts.lemmas:
                 return Const("lemma", self.contracts.lemmas[name])
-            if name == "implies":
-                return Const("pyfn", "implies")
+            if name in ("implies", "table_key"):
+                return Const("pyfn", name)
             if name in ("True", "False", "None"):
                 return S.lift({"True": True, "False": False, "None": None}[name])
         if ex.modname is not None:
@@ -278,7 +279,8 @@ class Engine:
         if full == "os.name":
             return V("str", z3.Const("os.name", S.Str))
         if full == "hashlib.algorithms_guaranteed":
-            return V("set", z3.Const("hashlib.algorithms_guaranteed", S.SeqPy))
+            # an external constant set: membership is the opaque spec predicate HASHLIB_GUARANTEED
+            return Const("setunion", [Const("specset", "HASHLIB_GUARANTEED")])
         if full == "string.ascii_letters":
             import string
             return S.mk_str(string.ascii_letters)
@@ -434,6 +436,25 @@ class Engine:
             if kc is not None:
                 st.assume(kc)
             return v
+        if shape == "none":
+            return S.none()
+        if shape.startswith("fn:"):
+            _, mod, qn = shape.split(":", 2)
+            fi = self.repo.func(mod, qn)
+            if fi is None:
+                raise Unsupported(f"shape function {shape} not found")
+            return Const("func", fi)
+        if shape.startswith("tablefn:"):
+            # a function drawn from a module-level dispatch table, selected by a symbolic key
+            _, mod, table = shape.split(":", 2)
+            key = S.fresh(name + ".key", "str")
+            tv = self.resolve_in_module(mod, table)
+            if not (isinstance(tv, Const) and tv.kind == "dict"):
+                raise Unsupported(f"{table} is not a dispatch table")
+            usable = [k for k, v in tv.val.items() if isinstance(v, Const) and v.kind == "func"]
+            st.assume(z3.Or(*[key.t == z3.StringVal(k) for k in usable]))
+            self.assumptions_used.add(f"{table}: only entries bound to functions in this sandbox are considered: {sorted(usable)}")
+            return Const("tablefn", (mod, table, key))
         base = shape
         fields = self.shapes.get(shape)
         if fields is None:
@@ -504,7 +525,10 @@ class Engine:
         (no spec unfolding: keeping an infeasible path is sound, only costly)."""
         t0 = time.time()
         s = z3.Solver()
-        s.set("timeout", self.quick_timeout_ms)
+        # a *resource* limit, not a wall-clock one: which infeasible paths are pruned (and hence
+        # which obligations exist) must not depend on the machine's load
+        s.set("rlimit", self.quick_rlimit)
+        s.set("timeout", 20000)
         for f in formulas:
             s.add(f)
         r = s.check()
@@ -525,6 +549,8 @@ class Engine:
         t = SP.coerce(body, sf.rtag) if isinstance(body, V) else None
         if t is None:
             raise Unsupported(f"spec {sf.name} body")
+        if decide is not None and getattr(decide, "prune_ites", False):
+            t = self.prune_ites(t, decide)
         eq = app == t
         if st.path:
             return z3.And(eq, *st.path)
@@ -550,6 +576,23 @@ class Engine:
                 elif t.decl().eq(S.DGET) or t.decl().eq(S.DHAS):
                     x = t.arg(0)
                     out.append(z3.Implies(Py.is_dict(x), z3.Length(Py.keys(x)) == z3.Length(Py.vals(x))))
+                elif t.decl().eq(S.PYITEMS):
+                    x = t.arg(0)
+                    out.append(z3.Implies(z3.Or(Py.is_list(x), Py.is_tuple(x), Py.is_dict(x), Py.is_set(x), Py.is_bytes(x)),
+                                          z3.Length(t) == S.PYLEN(x)))
+                    out.append(z3.And(S.PYLEN(x) >= 0, S.PYLEN(x) <= 2 ** 63 - 1))
+                elif t.decl().kind() == z3.Z3_OP_SEQ_NTH and z3.is_app(t.arg(0)) and t.arg(0).decl().eq(S.PYITEMS):
+                    x = t.arg(0).arg(0)
+                    i = t.arg(1)
+                    out.append(z3.Implies(z3.And(Py.is_bytes(x), i >= 0, i < z3.Length(Py.bs(x))),
+                                          z3.And(t == Py.int(Py.bs(x)[i]), Py.bs(x)[i] >= 0, Py.bs(x)[i] <= 255)))
+                elif t.decl().eq(S.BYTES_ITEMS):
+                    out.append(z3.Length(t) == z3.Length(t.arg(0)))
+                elif t.decl().kind() == z3.Z3_OP_SEQ_NTH and z3.is_app(t.arg(0)) and t.arg(0).decl().eq(S.BYTES_ITEMS):
+                    b = t.arg(0).arg(0)
+                    i = t.arg(1)
+                    out.append(z3.Implies(z3.And(i >= 0, i < z3.Length(b)),
+                                          z3.And(t == Py.int(b[i]), b[i] >= 0, b[i] <= 255)))
                 elif t.decl().eq(S.PYLEN):
                     out.append(z3.And(t >= 0, t <= 2 ** 63 - 1))
                 elif t.decl().kind() == z3.Z3_OP_SEQ_INDEX:
@@ -558,6 +601,137 @@ class Engine:
         if out:
             self.assumptions_used.add("len(x) <= 2**63 - 1 for every container (Py_ssize_t)")
         return out
+
+    def prune_ites(self, t, decide, limit=40):
+        """replace if-then-else subterms whose condition the obligation's context decides
+        (e.g. the negative-index normalisation `If(i < 0, i + n, i)` when i >= 0 is known)"""
+        found = []
+        seen = set()
+        stack = [t]
+        while stack and len(found) < limit:
+            x = stack.pop()
+            i = x.get_id()
+            if i in seen:
+                continue
+            seen.add(i)
+            if z3.is_app(x):
+                if x.decl().kind() == z3.Z3_OP_ITE:
+                    found.append(x)
+                stack.extend(x.children())
+        subs = []
+        for x in found:
+            k = decide(x.arg(0))
+            if k is True:
+                subs.append((x, x.arg(1)))
+            elif k is False:
+                subs.append((x, x.arg(2)))
+        if subs:
+            t = z3.substitute(t, *subs)
+        return t
+
+    def _mentions_bv(self, terms):
+        seen = set()
+        stack = list(terms)
+        while stack:
+            t = stack.pop()
+            i = t.get_id()
+            if i in seen:
+                continue
+            seen.add(i)
+            if z3.is_bv(t):
+                return True
+            if z3.is_app(t):
+                stack.extend(t.children())
+        return False
+
+    def bv_abstract_unsat(self, formulas, timeout_ms):
+        """Replace every maximal subterm that is not built from bit-vector / boolean operators
+        (uninterpreted applications, int2bv of integer terms, ...) by a fresh constant, the same
+        constant for syntactically equal terms; drop conjuncts that are not boolean combinations
+        of bit-vector atoms.  A model of the original formulas induces a model of the abstraction,
+        so `unsat` of the abstraction implies `unsat` of the original."""
+        cache = {}
+        ctr = [0]
+        BV_OK = {z3.Z3_OP_BADD, z3.Z3_OP_BSUB, z3.Z3_OP_BMUL, z3.Z3_OP_BAND, z3.Z3_OP_BOR, z3.Z3_OP_BXOR, z3.Z3_OP_BNOT,
+                 z3.Z3_OP_BLSHR, z3.Z3_OP_BSHL, z3.Z3_OP_BASHR, z3.Z3_OP_CONCAT, z3.Z3_OP_EXTRACT, z3.Z3_OP_ZERO_EXT,
+                 z3.Z3_OP_SIGN_EXT, z3.Z3_OP_BNUM, z3.Z3_OP_ULT, z3.Z3_OP_ULEQ, z3.Z3_OP_UGT, z3.Z3_OP_UGEQ, z3.Z3_OP_SLT,
+                 z3.Z3_OP_SLEQ, z3.Z3_OP_SGT, z3.Z3_OP_SGEQ, z3.Z3_OP_ITE, z3.Z3_OP_EQ, z3.Z3_OP_DISTINCT, z3.Z3_OP_AND,
+                 z3.Z3_OP_OR, z3.Z3_OP_NOT, z3.Z3_OP_IMPLIES, z3.Z3_OP_XOR, z3.Z3_OP_TRUE, z3.Z3_OP_FALSE, z3.Z3_OP_IFF}
+
+        def fresh(t):
+            k = t.get_id()
+            if k not in cache:
+                ctr[0] += 1
+                cache[k] = z3.Const(f"abs!{ctr[0]}", t.sort())
+            return cache[k]
+
+        memo = {}
+
+        def go(t):
+            """-> abstracted term, or None if t (a Bool) must be dropped"""
+            k = t.get_id()
+            if k in memo:
+                return memo[k]
+            out = None
+            if z3.is_app(t):
+                kind = t.decl().kind()
+                srt_ok = z3.is_bv(t) or z3.is_bool(t)
+                if not srt_ok:
+                    out = None
+                elif t.num_args() == 0:
+                    out = t if (kind in BV_OK or kind == z3.Z3_OP_UNINTERPRETED) else fresh(t)
+                elif kind in BV_OK:
+                    kids = [go(c) for c in t.children()]
+                    if kind in (z3.Z3_OP_EQ, z3.Z3_OP_DISTINCT) and not (z3.is_bv(t.arg(0)) or z3.is_bool(t.arg(0))):
+                        out = fresh(t) if z3.is_bool(t) else None
+                    elif any(c is None for c in kids):
+                        out = fresh(t) if z3.is_bv(t) or z3.is_bool(t) else None
+                    else:
+                        out = t.decl()(*kids)
+                else:
+                    out = fresh(t)
+            else:
+                out = fresh(t) if (z3.is_bv(t) or z3.is_bool(t)) else None
+            memo[k] = out
+            return out
+        s = z3.SolverFor("QF_BV")
+        s.set("timeout", timeout_ms)
+        for f in formulas:
+            for c in _conjuncts(f):
+                a = go(c)
+                if a is not None:
+                    s.add(a)
+        return s.check() == z3.unsat
+
+    def cli_check(self, solver, budget_ms):
+        """second back end: the query exported as SMT-LIB 2 and decided by the stand-alone z3
+        4.8.12 binary (/usr/bin/z3), a different build and version from the z3-solver 5.1 wheel
+        used in-process.  Used when the in-process solver crashes, and in the thorough tier to
+        re-check discharged obligations."""
+        import subprocess
+        import tempfile
+        d = os.path.join(self.root, ".scratch")
+        os.makedirs(d, exist_ok=True)
+        with tempfile.NamedTemporaryFile("w", suffix=".smt2", dir=d, delete=False) as fh:
+            fh.write(solver.to_smt2())
+            path = fh.name
+        try:
+            secs = max(1, int(budget_ms / 1000))
+            p = subprocess.run([CLI_PATH, f"-T:{secs}", path], capture_output=True, text=True, timeout=secs + 20)
+            out = p.stdout.strip().splitlines()
+            first = out[0].strip() if out else ""
+            if first == "unsat":
+                return z3.unsat
+            if first == "sat":
+                return z3.sat
+            return z3.unknown
+        except Exception:
+            return z3.unknown
+        finally:
+            try:
+                os.unlink(path)
+            except OSError:
+                pass
 
     def instantiate_axiom(self, ax, app):
         ex = Exec(self, Frame(self, None, None), total=True, specmod=ax.module)
@@ -585,8 +759,10 @@ class Engine:
         verdict = "unknown"
         model = None
         reason = ""
+        has_bv = self._mentions_bv(base)
         ctx = z3.Solver()
-        ctx.set("timeout", 50)
+        ctx.set("rlimit", 10000)
+        ctx.set("timeout", 5000)
         for f in base:
             ctx.add(f)
 
@@ -604,6 +780,9 @@ class Engine:
             if r2 == z3.unsat:
                 return True
             return None
+        decide.prune_ites = has_bv       # only bit-vector obligations need the index normalisations resolved
+        if getattr(ob, "safe_mode", False):
+            decide = None                # a solver crash was seen on this obligation: no context pruning
         for depth in range(fuel + 1):
             s = z3.Solver()
             # with too few unfoldings the query is satisfiable but models are hard to find:
@@ -614,7 +793,19 @@ class Engine:
                 s.add(f)
             for d in defs:
                 s.add(d)
-            r = s.check()
+            r = None
+            if depth >= 1 and has_bv:
+                # bit-vector obligations: abstract the non-bit-vector context away and hand the
+                # pure QF_BV query to the bit-blaster first (sound for `unsat`)
+                if self.bv_abstract_unsat(base + defs, min(timeout_ms, 30000)):
+                    r = z3.unsat
+                    ob.backend_note = "z3 QF_BV after abstraction of non-bit-vector terms"
+            if r is None:
+                if getattr(ob, "use_cli", False):
+                    r = self.cli_check(s, budget)
+                    ob.backend = CLI_NAME
+                else:
+                    r = s.check()
             if r == z3.unsat:
                 verdict = "discharged"
                 ob.fuel_used = depth
@@ -646,7 +837,7 @@ class Engine:
             frontier = self.specs.apps_in(new, seen_ids)
         ob.verdict = verdict
         ob.time = time.time() - t0
-        ob.backend = "z3"
+        ob.backend = getattr(ob, "backend", None) or "z3"
         ob.model = model
         ob.reason = reason
         ob.defs = defs
@@ -663,6 +854,10 @@ def _conjuncts(g):
         else:
             out.append(t)
     return out
+
+
+CLI_PATH = "/usr/bin/z3"
+CLI_NAME = "z3-4.8.12-cli"
 
 
 class _Named:
